@@ -39,6 +39,9 @@ class FakeSSLSocket(ssl.SSLSocket):
     def recv(self, n=1024, flags=0):
         return self._inner.recv(n)
 
+    def recv_into(self, buffer, nbytes=0, flags=0):
+        return self._inner.recv_into(buffer, nbytes)
+
     def close(self):
         return self._inner.close()
 
@@ -78,6 +81,9 @@ class FakeTcpSocket(_socket.socket):
 
     def recv(self, n=1024, flags=0):
         return self._inner.recv(n)
+
+    def recv_into(self, buffer, nbytes=0, flags=0):
+        return self._inner.recv_into(buffer, nbytes)
 
     def close(self):
         return self._inner.close()
